@@ -157,7 +157,7 @@ class Check:
         # 3. exploration
         for part in parts:
             t = time.time()
-            cap = part.time_cap or (900 if self.tier == 'quick' else 5400)
+            cap = part.time_cap or (900 if self.tier == 'quick' else getattr(part, 'thorough_cap', 5400))
             res = explore(part.harness(self), interp=self.I, time_cap=cap, vcap=part.vcap, verbose=bool(os.environ.get('VERIF_VERBOSE')), isolate=getattr(part, 'isolate', False),
                           classify=(lambda v, part=part: part.attribute(self, v, active_known)))
             for k, n in res.known.items(): known_hits[k] = known_hits.get(k, 0) + n
